@@ -25,8 +25,10 @@ SOFTWARE.
 package client
 
 import (
+	"bytes"
 	"errors"
 	"fmt"
+	"io"
 	"sync"
 
 	"crypto/rand"
@@ -300,12 +302,30 @@ func (c *Client) Send(e protocol.ChunkEncoder) error {
 		defer c.ackLock.Unlock()
 	}
 
-	err = msgp.Encode(c.session.Connection, e)
-	if err != nil || !c.RequireAck {
+	// Encode completely before touching the connection: a message that cannot
+	// be encoded must not leave a torn prefix on the wire, where it would
+	// corrupt the framing of everything sent afterwards.
+	var buf bytes.Buffer
+	if err = msgp.Encode(&buf, e); err != nil {
+		return err
+	}
+
+	if err = writeAll(c.session.Connection, buf.Bytes()); err != nil || !c.RequireAck {
 		return err
 	}
 
 	return c.checkAck(chunk)
+}
+
+// writeAll writes b with a single Write call and reports a short write as an
+// error even if the connection did not.
+func writeAll(conn net.Conn, b []byte) error {
+	n, err := conn.Write(b)
+	if err == nil && n < len(b) {
+		err = io.ErrShortWrite
+	}
+
+	return err
 }
 
 // SendRaw sends bytes across the wire. If the session
@@ -323,9 +343,7 @@ func (c *Client) SendRaw(m []byte) error {
 		return errors.New("session handshake not completed")
 	}
 
-	_, err := c.session.Connection.Write(m)
-
-	return err
+	return writeAll(c.session.Connection, m)
 }
 
 func (c *Client) SendPacked(tag string, entries protocol.EntryList) error {
